@@ -107,7 +107,49 @@ fn clip(s: &str) -> String {
     if s.len() > 1200 { format!("{}…[{} bytes]", &s[..1200], s.len()) } else { s.to_string() }
 }
 
+fn run_conc(ops: &[String], model: &mut Option<ModelProc>) -> CaseOut {
+    let mut out = CaseOut { ops: ops.to_vec(), ..Default::default() };
+    match explore::Case::parse(ops) {
+        Err(e) => {
+            out.hit("bad_line");
+            eprintln!("bad concurrent case: {e}");
+        }
+        Ok((case, sched)) => {
+            let mut cache = std::collections::HashMap::new();
+            let mut anomalies = 0;
+            let r = loop {
+                match explore::run_schedule(&case, &sched, &mut cache) {
+                    explore::Outcome::Retry => continue,
+                    x => break x,
+                }
+            };
+            out.hit("sched:corpus_schedule");
+            match r {
+                explore::Outcome::Complete(run) => {
+                    out.mutated = true;
+                    out.answered = true;
+                    if case.progs.iter().flatten().all(|o| matches!(o, explore::COp::Ins(..) | explore::COp::Rem(..) | explore::COp::Compact)) && model.is_some() {
+                        out.model_lines += 1;
+                    }
+                    if let Some(f) = explore::check_run(&case, &run, model, &mut anomalies) {
+                        let at = ops.len() - 1;
+                        out.failure = Some((at, if f.model { Failure::Disagree { what: f.what, model: f.expected, implementation: f.observed } } else { Failure::Oracle { key: f.key, what: f.what, expected: f.expected, observed: f.observed } }));
+                    }
+                }
+                explore::Outcome::Stuck(e) => {
+                    out.failure = Some((ops.len() - 1, Failure::Oracle { key: "threads:stuck".into(), what: e, expected: "schedule executable".into(), observed: "stuck".into() }));
+                }
+                explore::Outcome::Retry => unreachable!(),
+            }
+        }
+    }
+    out
+}
+
 fn run_ops(ops: &[String], model: &mut Option<ModelProc>) -> CaseOut {
+    if ops.first().is_some_and(|l| l.starts_with("conc ")) {
+        return run_conc(ops, model);
+    }
     if ops.first().is_some_and(|l| l.starts_with("wnew")) {
         return wrapper::run_wrapper_ops(ops);
     }
@@ -154,10 +196,14 @@ fn run_generated(seed: u64, case: u64, thorough: bool, model: &mut Option<ModelP
 }
 
 fn shrink_case(ops: Vec<String>, f: &Failure, model: &mut Option<ModelProc>) -> Vec<String> {
+    let f_is_conc = ops.first().is_some_and(|l| l.starts_with("conc "));
+    if f_is_conc {
+        return ops;
+    }
     shrink(
         ops,
         |cand: &[String]| {
-            if cand.is_empty() || !(cand[0].starts_with("new ") || cand[0].starts_with("wnew ")) {
+            if cand.is_empty() || !(cand[0].starts_with("new ") || cand[0].starts_with("wnew ")) || f_is_conc {
                 return false;
             }
             let o = run_ops(cand, model);
@@ -263,7 +309,9 @@ fn main() {
 
     // budget: a case count and a wall-clock limit, whichever comes first (cases are a pure function
     // of (seed, index), so a replay never depends on how far a run got)
-    let n_cases = args.budget(40_000, 1_500_000);
+    // `--only sched`: development switch, run nothing but the schedule exploration
+    let only_sched = args.extra.get("only").is_some_and(|v| v == "sched");
+    let n_cases = if only_sched { 0 } else { args.budget(40_000, 1_500_000) };
     let limit_s = if args.focus.is_some() { 420 } else { args.budget(60, 1200) };
     let deadline = std::time::Instant::now() + std::time::Duration::from_secs(limit_s);
     let threads = std::thread::available_parallelism().map(|n| n.get()).unwrap_or(4).min(16) as u64;
@@ -355,7 +403,7 @@ fn main() {
     }
     // real threads, no hooks: measured, not proved
     if args.replay.is_none() {
-        let so = stress::stress(args.seed, args.budget(600, 20000), 3);
+        let so = stress::stress(args.seed, if only_sched { 0 } else { args.budget(600, 20000) }, 3);
         report.measured.insert("thread_stress_runs(3 mutator threads + 1 compaction thread, disjoint ids per thread)".into(), json!(so.runs));
         report.measured.insert("thread_stress_ops".into(), json!(so.ops));
         report.measured.insert("thread_stress_compactions".into(), json!(so.compactions));
@@ -407,6 +455,6 @@ fn main() {
         report.measured.insert("same_pair_result_anomalies (returned value not explained by a sequential order while two threads work on the same (key,id); see notes/C10.md)".into(), json!(anomalies));
         report.measured.insert("schedule_exploration_seconds".into(), json!(t0.elapsed().as_secs_f64()));
     }
-    report.notes.push("measured only: real threads / interleavings are not exercised (hooks H1/H2 absent); see notes/C10.md".into());
+    report.notes.push("threads: interleavings at the verif::point hooks are enumerated on real threads and replayed by the Lean model (insert / remove / compact; array operations oracle only); the free-running stress phase is measured only".into());
     report.write(&args);
 }
